@@ -9,7 +9,8 @@ CONSTANTS
   Version = 21
   Deviations = {"RenameKeepsLabel", "WsRemoveKeepsChild", "HoleRemovalKeepsObjectRows", "HoleRemovalKeepsGroupChild", "StalePgIdCache", "EmptyTableRaises", "TableByLabel"}
   MaxLevel = 5
-  Acts = {"AddHole", "AddDepthData", "AddIntervalData", "SetValues", "Rename", "RemoveDataViaParent", "RemoveDataViaWorkspace", "RemoveHoleViaParent", "RemoveHoleViaWorkspace", "RemovePropertyGroup", "AddValuesToTable", "Reopen", "CopyGroup"}
+  Acts = {"AddHole", "AddDepthData", "AddIntervalData", "SetValues", "Rename", "RemoveDataViaParent", "RemoveDataViaWorkspace", "RemoveHoleViaParent", "RemoveHoleViaWorkspace", "RemovePropertyGroup", "AddValuesToTable", "Reopen", "CopyGroup", "Protect"}
+  Kind = "float"
 VIEW vw
 INVARIANT ExportState
 ACTION_CONSTRAINT ExportTrans
